@@ -16,6 +16,10 @@ the property's conclusion directly:
     controller, and each denoted operation went Ready → Done (executors as above);
   * accepted schedule / cancel / execute calls were made by a proposer / canceller / (when
     configured) executor who signed the call;
+  * the monitor keeps its own ghost log of accepted schedule / cancel / execution calls: the
+    operation consumed by an admin call or by `__check_auth` must have been scheduled (ledger `l`,
+    delay `d`) with `l + d` — saturating at u32::MAX — `≤ now`, not cancelled or executed since;
+    every reported operation state and ready ledger must be the one this log prescribes;
   * the minimum delay, role membership and admin change only through an accepted call of the
     corresponding kind; a rejected call changes nothing; Done stays Done.
 -/
@@ -239,9 +243,37 @@ structure DefM where
   s : Nat
   key : String
 
+/-- what the accepted calls seen so far say about an operation (the monitor's own ghost log) -/
+inductive G where
+  | unset
+  | pending (l d : Nat)      -- accepted schedule at ledger `l` with delay `d`, nothing since
+  | done
+  deriving DecidableEq
+
 structure Mon where
   defs : List DefM
   prev : Option Obs
+  ghost : List (String × G)  -- keyed by the canonical tuple text, newest binding first
+
+def Mon.get (m : Mon) (k : String) : G :=
+  match m.ghost.find? (fun p => p.1 = k) with
+  | some (_, g) => g
+  | none => .unset
+
+def Mon.set (m : Mon) (k : String) (g : G) : Mon := { m with ghost := (k, g) :: m.ghost }
+
+/-- "the scheduled delay has fully elapsed": `l + d ≤ now`, or the saturated corner -/
+def elapsedM (l d now : Nat) : Bool :=
+  decide (l + d ≤ now) || (decide (l + d > 4294967295) && decide (now = 4294967295))
+
+def satU32 (a b : Nat) : Nat := if a + b > 4294967295 then 4294967295 else a + b
+
+/-- state and ledger value the accepted history prescribes at ledger `now` -/
+def expectedSt (g : G) (now : Nat) : String × Nat :=
+  match g with
+  | .unset => ("U", 0)
+  | .done => ("D", 1)
+  | .pending l d => if elapsedM l d now then ("R", satU32 l d) else ("W", satU32 l d)
 
 def refKey (defs : List DefM) (r : String) : String :=
   if r = "z" then "raw0"
@@ -279,7 +311,16 @@ def consumed (m : Mon) (prev o : Obs) (f : Nat) (a : String) (md : MetaM) (j : N
   match findDef m.defs 0 f a md.p md.s with
   | none => some s!"no operation (controller, fn {f}, {a}, {md.p}, salt {md.s}) was ever scheduled"
   | some k =>
-    if stCode prev k ≠ "R" then some s!"operation {k} for this call was {stCode prev k}, not Ready, before the call"
+    let key := match m.defs[k]? with | some d => d.key | none => "?"
+    let early : Option String :=
+      match m.get key with
+      | .pending l d =>
+        if elapsedM l d prev.now then none
+        else some s!"operation {k} for this call was scheduled at ledger {l} with delay {d}: that delay has not elapsed at ledger {prev.now}"
+      | .unset => some s!"operation {k} for this call is not scheduled (or was cancelled) according to the accepted history"
+      | .done => some s!"operation {k} for this call was already executed according to the accepted history"
+    if early.isSome then early
+    else if stCode prev k ≠ "R" then some s!"operation {k} for this call was {stCode prev k}, not Ready, before the call"
     else if stCode o k ≠ "D" then some s!"operation {k} for this call is {stCode o k}, not Done, after the call"
     else
       let execs := prev.roles[1]?.getD []
@@ -300,6 +341,55 @@ def ctxCall (defs : List DefM) (s : String) : Option (Nat × Nat × String) :=
     | ["c", t, f, a] => do pure ((← t.toNat?), (← f.toNat?), a)
     | _ => none
 
+/-- every reported operation state and ledger value against the monitor's ghost log -/
+def checkStates (m : Mon) (o : Obs) : Option String :=
+  let bad := (List.range o.st.length).filterMap (fun k =>
+    match m.defs[k]?, o.st[k]? with
+    | some d, some (c, l) =>
+      let ex := expectedSt (m.get d.key) o.now
+      if ex ≠ (c, l) then
+        some s!"site=controller.state operation {k} {d.key}: reported {c}:{l} but the accepted history prescribes {ex.1}:{ex.2} at ledger {o.now}"
+      else none
+    | _, _ => none)
+  bad.head?
+
+/-- the operations the accepted call `(kind, …)` consumed, as far as the op line identifies them -/
+def consumedKeys (m : Mon) (kind : String) (rest : List String) : List String :=
+  let keyOf := fun (f : Nat) (a : String) (md : MetaM) =>
+    (findDef m.defs 0 f a md.p md.s).bind (fun k => (m.defs[k]?).map (·.key))
+  if kind = "check" then
+    let metas := (parseMetasM m.defs ((kv? rest "metas").getD "e")).getD []
+    let ctxS := (kv? rest "ctxs").getD "e"
+    let ctxs := if ctxS = "e" then [] else ctxS.splitOn ";"
+    (List.range ctxs.length).filterMap (fun j =>
+      match ctxCall m.defs (ctxs[j]?.getD "?"), metas[j]? with
+      | some (0, f, a), some md => keyOf f a md
+      | _, _ => none)
+  else
+    let f := if kind = "update" then 0 else if kind = "grant" then 1 else if kind = "revoke" then 2
+      else if kind = "transfer" then 3 else 4
+    match parseMetasM m.defs ((kv? rest "sig").getD "none") with
+    | some (md :: _) => (keyOf f ((kv? rest "a").getD "-") md).toList
+    | _ => []
+
+def isAdminKind' (kind : String) : Bool :=
+  kind = "update" || kind = "grant" || kind = "revoke" || kind = "transfer" || kind = "renounce"
+
+/-- the monitor's ghost log after an ACCEPTED call at ledger `now` -/
+def ghostStep (m : Mon) (kind : String) (rest : List String) (now : Nat) (prevAdmin : Option Nat) : Mon :=
+  if kind = "sched" then
+    match m.defs[(kvNat? rest "k").getD 9999]? with
+    | some d => m.set d.key (.pending now ((kvNat? rest "d").getD 0))
+    | none => m
+  else if kind = "cancel" then m.set (refKey m.defs ((kv? rest "i").getD "?")) .unset
+  else if kind = "exec" then
+    match m.defs[(kvNat? rest "k").getD 9999]? with
+    | some d => m.set d.key .done
+    | none => m
+  else if kind = "check" ∨ (isAdminKind' kind ∧ prevAdmin = some 0) then
+    (consumedKeys m kind rest).foldl (fun acc k => acc.set k .done) m
+  else m
+
 def fnOfKind (kind : String) : Nat :=
   if kind = "update" then 0 else if kind = "grant" then 1 else if kind = "revoke" then 2
   else if kind = "transfer" then 3 else 4
@@ -315,7 +405,10 @@ def check (m : Mon) (opl obs : String) : Mon × Option String :=
     let kind := (ws.drop 1).head?.getD ""
     let rest := ws.drop 2
     let auth := ((kv? rest "auth").getD "-").splitOn ","
-    let fin (m' : Mon) (f : Option String) : Mon × Option String := ({ m' with prev := some o }, f)
+    let prevAdmin := m.prev.bind (·.admin)
+    let fin (m' : Mon) (f : Option String) : Mon × Option String :=
+      let mg := if o.ok then ghostStep m' kind rest o.now prevAdmin else m'
+      ({ mg with prev := some o }, f.orElse (fun _ => checkStates mg o))
     if kind = "def" then
       match kvNat? rest "t", kvNat? rest "f", kv? rest "a", kv? rest "p", kvNat? rest "s" with
       | some t, some f, some a, some p, some s =>
@@ -385,7 +478,9 @@ def check (m : Mon) (opl obs : String) : Mon × Option String :=
             | w :: _ => some s!"site=controller.checkauth.unconsumed __check_auth returned Ok but {w}")
       else if kind = "sched" then
         let byy := (kvNat? rest "by").getD 99
-        fin m (if ¬ (prev.roles[0]?.getD []).contains byy then some s!"site=controller.schedule.role {byy} scheduled without the proposer role"
+        let d := (kvNat? rest "d").getD 0
+        fin m (if (match prev.min with | some mn => decide (d < mn) | none => true) then some s!"site=controller.schedule.delay scheduled with delay {d} below the minimum delay in force"
+               else if ¬ (prev.roles[0]?.getD []).contains byy then some s!"site=controller.schedule.role {byy} scheduled without the proposer role"
                else if ¬ auth.contains s!"c{byy}" then some s!"site=controller.schedule.auth scheduled without {byy}'s authorization" else none)
       else if kind = "cancel" then
         let byy := (kvNat? rest "by").getD 99
@@ -414,7 +509,7 @@ def machine : Machine where
   init := initM
   op := stepLine
   μ := Mon
-  minit := fun _ => { defs := [], prev := none }
+  minit := fun _ => { defs := [], prev := none, ghost := [] }
   mon := check
 
 end OZ.Drv.C09
